@@ -8,7 +8,7 @@ every oracle of C01..C10 but C07 on one run, then C09, then C07 for the files wh
 unchanged tree does not show. Results go to mutants/auto/results.jsonl (one line per mutant, resumable); the patch of
 every mutant that nothing noticed is kept in mutants/auto/ for triage (equivalent mutant, or a gap in the workloads).
 
-usage: automut.py [-j N] [-stride K] [-offset O] [file ...]
+usage: automut.py [-j N] [-stride K] [-offset O] [-retest] [file ...]
 """
 import json, os, re, subprocess, sys, shutil, threading, hashlib, queue, time
 HERE = os.path.dirname(os.path.dirname(os.path.abspath(__file__)))
@@ -117,18 +117,25 @@ def one(file, site, base, workers):
 
 def main():
     args = sys.argv[1:]
-    jobs, stride, offset = 4, 1, 0
+    jobs, stride, offset, retest = 4, 1, 0, False
     while args and args[0].startswith("-"):
+        if args[0] == "-retest": retest = True; args = args[1:]; continue
         if args[0] == "-j": jobs = int(args[1]); args = args[2:]
         elif args[0] == "-stride": stride = int(args[1]); args = args[2:]
         elif args[0] == "-offset": offset = int(args[1]); args = args[2:]
         else: sys.exit(__doc__)
     files = args or list(TARGETS)
     done = set()
+    last = {}
     if os.path.exists(RES):
         for l in open(RES):
-            try: done.add(json.loads(l)["id"])
+            try: r = json.loads(l); last[r["id"]] = r
             except Exception: pass
+    done = set(last)
+    if retest:
+        # re-run the mutants that nothing noticed so far against the harness as it is now (the last record per id counts)
+        done = {i for i, r in last.items() if r.get("status") != "survived"}
+        stride = 1
     props = sorted({p for f in files for p in TARGETS[f]})
     base = baseline(props)
     q = queue.Queue()
@@ -136,7 +143,10 @@ def main():
         code, out = sh([os.path.join(HERE, "bin", "automut"), "-file", os.path.join("/repo", f), "-list"])
         sites = [json.loads(l) for l in out.splitlines() if l.startswith("{")]
         for s in sites:
-            if s["idx"] % stride == offset % stride and "%s#%d" % (f, s["idx"]) not in done:
+            mid = "%s#%d" % (f, s["idx"])
+            if retest and mid not in last:
+                continue
+            if s["idx"] % stride == offset % stride and mid not in done:
                 q.put((f, s))
     print("to do:", q.qsize(), flush=True)
     workers = max(2, 16 // jobs)
